@@ -3,10 +3,13 @@
 package main
 
 import (
+	"encoding/base64"
 	"encoding/json"
 	"fmt"
 	"os"
+	"reflect"
 	"runtime/debug"
+	"strconv"
 	"strings"
 
 	"github.com/bytedance/sonic"
@@ -83,7 +86,75 @@ func errS(err error) string {
 	return "ERR(" + err.Error() + ")"
 }
 
+// encoder side: the Go string (or byte slice) being MARSHALLED is the input whose placement varies
+func c05Enc(v interface{}, api sonic.API) string {
+	b, err := api.Marshal(v)
+	return string(b) + " " + errS(err)
+}
+
+type c05Quoted struct {
+	S string      `json:"s,string"`
+	N json.Number `json:"n"`
+}
+
+type c05Typed struct {
+	B  []byte            `json:"b"`
+	N  json.Number       `json:"n"`
+	M  map[string]string `json:"m"`
+	Q  string            `json:"q,string"`
+	QI int               `json:"qi,string"`
+	A  []string          `json:"a"`
+	K0 interface{}       `json:"k0"`
+	K1 json.RawMessage   `json:"k1"`
+}
+
+var c05NoHTML = sonic.Config{SortMapKeys: true}.Froze()
+
 var c05Entries = []c05Entry{
+	{"Marshal(string)", func(s string) string { return c05Enc(s, c05NoHTML) }},
+	{"ConfigStd.Marshal(string)", func(s string) string { return c05Enc(s, sonic.ConfigStd) }},
+	{"ConfigStd.Marshal(map[string]string)", func(s string) string { return c05Enc(map[string]string{s: s}, sonic.ConfigStd) }},
+	{"Marshal(quoted string field, json.Number)", func(s string) string { return c05Enc(&c05Quoted{S: s, N: json.Number(s)}, c05NoHTML) }},
+	{"ConfigStd.Marshal([]byte)", func(s string) string { return c05Enc(unsafeBytes(s), sonic.ConfigStd) }},
+	{"ConfigStd.Marshal(RawMessage)", func(s string) string { return c05Enc(json.RawMessage(unsafeBytes(s)), sonic.ConfigStd) }},
+	{"Marshal(RawMessage,NoValidate)", func(s string) string {
+		return c05Enc(json.RawMessage(unsafeBytes(s)), sonic.Config{NoValidateJSONMarshaler: true}.Froze())
+	}},
+	{"ast.NewString.MarshalJSON", func(s string) string {
+		n := ast.NewString(s)
+		b, err := n.MarshalJSON()
+		return string(b) + " " + errS(err)
+	}},
+	{"UnmarshalString(typed destinations)", func(s string) string {
+		var v c05Typed
+		err := sonic.UnmarshalString(s, &v)
+		return deepShow(reflect.ValueOf(v)) + " " + errS(err)
+	}},
+	{"ConfigStd.UnmarshalFromString(typed destinations)", func(s string) string {
+		var v c05Typed
+		err := sonic.ConfigStd.UnmarshalFromString(s, &v)
+		return deepShow(reflect.ValueOf(v)) + " " + errS(err)
+	}},
+	{"UnmarshalString([]byte)", func(s string) string {
+		var v []byte
+		err := sonic.UnmarshalString(s, &v)
+		return fmt.Sprintf("%q", v) + " " + errS(err)
+	}},
+	{"UnmarshalString(json.Number)", func(s string) string {
+		var v json.Number
+		err := sonic.UnmarshalString(s, &v)
+		return fmt.Sprintf("%q", string(v)) + " " + errS(err)
+	}},
+	{"UnmarshalString(map[int]int8)", func(s string) string {
+		var v map[int]int8
+		err := sonic.UnmarshalString(s, &v)
+		return deepShow(reflect.ValueOf(v)) + " " + errS(err)
+	}},
+	{"UnmarshalString(map[string]string)", func(s string) string {
+		var v map[string]string
+		err := sonic.UnmarshalString(s, &v)
+		return deepShow(reflect.ValueOf(v)) + " " + errS(err)
+	}},
 	{"ValidString", func(s string) string { return fmt.Sprint(sonic.ValidString(s)) }},
 	{"Valid", func(s string) string { return fmt.Sprint(sonic.Valid(unsafeBytes(s))) }},
 	{"UnmarshalString(interface)", func(s string) string {
@@ -269,6 +340,7 @@ func (v *c05Visitor) OnArrayEnd() error            { v.sb.WriteString("];"); ret
 
 var c05Frags = []string{"t", "tr", "tru", "true", "n", "nu", "nul", "null", "f", "fa", "fal", "fals", "false",
 	`"`, `"a`, `"abc\`, `"\u12`, `"\ud800`, `"\ud800\u`, `"\ud800\udc0`, "-", "1", "12", "1.", "1e", "1e+", "-0", "0.1",
+	`"123`, `"-4.5e3`, `{"12`, `{"-7`, `{"12"`, `{"a":"123`, `{"qi":"45`, `{"n":"6`, `{"n":"6.5`, `"12"`,
 	"[", "[1", "[1,", `{"a"`, `{"a":`, `{"a":[`, " ", "", "[ ", "{", "{\n\t ", `{"a":[ `, `[[`, `[{`, `{"a":{`, "[1, 2 ", "[1,\n", `{"a": 1 `, `{"a":1,`, `{"a":1, `, `"abc" `, "1 ", "true ", "[1] ", "\t", " \n", "\xe2\x82", "\xff", "\xf0\x9f\x98", `\`, `\u`, `\u00`, `a\`, `<`, `&`, "\xe2\x80"}
 var c05Conts = []string{"rue", "ull", "alse", `"`, `\"`, `\\`, "0123456789", "}", "]", "e5", ".5", "\x80\x80\x80", "      ", `"}`, `":1}`, "\x00\x00\x00\x00", "u0041", "dc00", `"]}`, ",1]", "ue}", "ll]"}
 
@@ -312,7 +384,27 @@ func runC05(c *Ctx) Result {
 	g := &gen{t: t, o: genOpts{MaxDepth: 3, MaxWidth: 4, Escapes: true, Spaces: true, BigObject: true}}
 	// input
 	var in string
-	switch g.d(6) {
+	switch g.d(7) {
+	case 6: // members the typed destinations care about (base64, numbers as text, quoted fields), cut anywhere
+		b64 := base64.StdEncoding.EncodeToString([]byte(strings.Repeat("sonic!", 8)[:1+g.d(48)]))
+		if g.d(4) == 0 {
+			b64 = strings.TrimRight(b64, "=") // malformed padding
+		}
+		num := g.num()
+		if g.d(2) == 0 {
+			num = `"` + num + `"` // json.Number accepts the quoted form
+		}
+		parts := []string{`"b":"` + b64 + `"`, `"n":` + num,`"m":{` + quoteJSON(g.str()) + `:` + quoteJSON(g.str()) + `}`,
+			`"q":` + quoteJSON(quoteJSON(g.str())), `"qi":"` + strconv.Itoa(g.d(100000)-500) + `"`, `"a":[` + quoteJSON(g.str()) + `,` + quoteJSON(g.str()) + `]`,
+			`"k0":` + g.Doc(), `"k1":` + g.Doc()}
+		for i := len(parts) - 1; i > 0; i-- {
+			j := g.d(i + 1)
+			parts[i], parts[j] = parts[j], parts[i]
+		}
+		in = "{" + strings.Join(parts[:1+g.d(len(parts))], ",") + "}"
+		if g.d(2) == 0 {
+			in = in[:g.d(len(in)+1)]
+		}
 	case 0:
 		in = c05Frags[g.d(len(c05Frags))]
 	case 1: // valid document, then a fragment glued to it
